@@ -781,6 +781,21 @@ def r_local(E):
         # (the per-value step may be a helper, map()ped; the zone and the period may be read by module-level helpers or by
         # the constructors of a small record class)
         _mu_nodes = list(_nthm(fn, pm.helper_finder("ModelingUpdate"), depth=3, find_function=pm.any_helper_finder(rel)))
+        # … or by a property of the series itself (`ancestor.aware_time_span`, which reads `self.local_timezone`): a property
+        # that only one class of the package has is read where it is used, two levels deep
+        _up = pm.unique_property_finder()
+        _seen_p, _front = set(), list(_mu_nodes)
+        for _lvl in range(2):
+            _new = []
+            for n_ in _front:
+                if isinstance(n_, ast.Attribute) and n_.attr not in _seen_p and not (
+                        isinstance(n_.value, ast.Name) and n_.value.id == "self" and _lvl == 0):
+                    hp_ = _up(n_.attr)
+                    if hp_ is not None:
+                        _seen_p.add(n_.attr)
+                        _new += list(ast.walk(hp_))
+            _mu_nodes += _new
+            _front = _new
         naive_test = any(isinstance(n, ast.Compare) and isinstance(n.ops[0], (ast.Is, ast.IsNot)) and isinstance(n.left, ast.Attribute)
                          and n.left.attr in ("tz", "tzinfo") for n in _mu_nodes)
         uses_zone = any(isinstance(n, ast.Attribute) and n.attr == "timezone" and isinstance(n.value, ast.Attribute)
